@@ -250,3 +250,51 @@ def fn_calling(prog, callee_pattern, file_suffix=None, crate="redproxy_rs"):
         raise AnchorMissing("expected exactly one function%s calling %s, found %d: %s" % (
             (" in " + file_suffix) if file_suffix else "", callee_pattern, len(out), [f.path for f in out][:4]))
     return out[0]
+
+
+def rule_afd1(chk, prog, rule="AFD1"):
+    from ..flow import bool_branch, edge_dominates
+    n = 0
+    for f in prog.fns.values():
+        if f.crate != "redproxy_rs":
+            continue
+        cl = [c for c in f.calls if re.search(r"AsyncFdReadyGuard::<'?\w*,? ?\w*>::clear_ready$|async_fd::AsyncFdReadyGuard::<.*>::clear_ready$|AsyncFdReadyMutGuard.*::clear_ready$", c.name or "")]
+        if not cl:
+            continue
+        # WouldBlock tests: comparison with Errno::EWOULDBLOCK / EAGAIN or ErrorKind::WouldBlock
+        tests = []
+        for c in f.calls:
+            if re.search(r"cmp::PartialEq::(eq|ne)$", c.path or ""):
+                txt = " ".join(str((op_const_s(a))) for a in c.args) + str([f.trace(op_base(a)) for a in c.args if op_base(a) is not None])
+                if re.search(r"EWOULDBLOCK|EAGAIN|WouldBlock", txt):
+                    tests.append(c)
+        for b in f.reachable:
+            t = f.term(b)
+            if t and t["k"] == "switch":
+                txt = str(f.trace(op_base(t["d"]))) if op_base(t["d"]) is not None else ""
+                if re.search(r"EWOULDBLOCK|EAGAIN|WouldBlock", txt):
+                    tests.append(("switch", b, t))
+        for c in cl:
+            n += 1
+            ok = False
+            for tst in tests:
+                if isinstance(tst, tuple):
+                    _, sb, t = tst
+                    for v, tb in t["ts"]:
+                        if edge_dominates(f, sb, tb, c.bb):
+                            ok = True
+                else:
+                    for (sb, tt, ft) in bool_branch(f, tst.dest[0]):
+                        if edge_dominates(f, sb, tt, c.bb):
+                            ok = True
+            chk.instance(rule, c.where(), "clear_ready #%d in %s only after the operation reported WouldBlock" % (n, f.path), ok)
+            if not ok:
+                chk.finding(rule, f.key, "clear_ready", "", c.where(),
+                            "%s clears fd readiness on a path that did not see WouldBlock (AsyncFd contract): after a partial transfer the task "
+                            "waits for a readiness edge that never comes while data is still pending -- that direction of the tunnel hangs" % f.path)
+    return n
+
+
+def op_const_s(a):
+    k = a.get("k") if isinstance(a, dict) else None
+    return (k or {}).get("s", "")
